@@ -5,6 +5,8 @@ Each family provides
   mutate(obj, m, v)   performs mutator call <<m, v>> of ObjectSM's alphabet on the object
   calls(obj)          extra (label, thunk) queries with argument patterns
 The concrete arrays bound to tokens 1/2 are fixed small examples (6 nodes / 12 samples)."""
+import os
+
 import numpy as np
 
 from props import netcommon
@@ -407,6 +409,77 @@ class HilbertFamily(TsonisFamily):
         return HilbertClimateNetwork
 
 
+class SpearmanFamily(TsonisFamily):
+    name = "spearman"
+
+    def cls(self):
+        from pyunicorn.climate import SpearmanClimateNetwork
+        return SpearmanClimateNetwork
+
+
+class PartialCorrFamily(TsonisFamily):
+    """Five years of data: the 15 winter samples keep the covariance of the 6 series regular (the inverse of a
+    singular covariance matrix is not a partial correlation)."""
+    name = "partialcorr"
+
+    def cls(self):
+        from pyunicorn.climate import PartialCorrelationClimateNetwork
+        return PartialCorrelationClimateNetwork
+
+    def build(self, a):
+        from pyunicorn.climate import ClimateData
+        k = np.arange(60)[:, None]
+        j = np.arange(6)[None, :]
+        data = _data12(t=60) + 0.4 * np.sin(0.9 * k * (j + 1) + j * j) + 0.2 * ((k * k + 3 * j * k) % 11) / 11.0
+        cd = ClimateData(data, _grid(t=60), 12, silence_level=3)
+        kw = {a["MODE"]: CLIM_PARAM[a["MODE"]][a["P"]], "winter_only": bool(a["WO"])}
+        return self.cls()(cd, non_local=bool(a["NL"]), silence_level=3, **kw)
+
+
+class MutualInfoFamily(TsonisFamily):
+    """set_winter_only / mutual_information may write and read `mutual_information_*.data` in the current
+    directory (documented file cache): every mutation runs in a scratch directory that is removed afterwards."""
+    name = "mutualinfo"
+
+    def cls(self):
+        from pyunicorn.climate import MutualInfoClimateNetwork
+        return MutualInfoClimateNetwork
+
+    def mutate(self, obj, m, v):
+        import shutil
+        import tempfile
+        here = os.getcwd()
+        d = tempfile.mkdtemp(prefix="pyu_mi_", dir="/var/tmp")
+        os.chdir(d)
+        try:
+            TsonisFamily.mutate(self, obj, m, v)
+        finally:
+            os.chdir(here)
+            shutil.rmtree(d, ignore_errors=True)
+
+
+class HavlinFamily(TsonisFamily):
+    name = "havlin"
+    extra = {}
+    DELAY = {1: 2, 2: 3}
+
+    def cls(self):
+        from pyunicorn.climate import HavlinClimateNetwork
+        return HavlinClimateNetwork
+
+    def build(self, a):
+        from pyunicorn.climate import ClimateData
+        cd = ClimateData(_data12(), _grid(t=24), 12, silence_level=3)
+        kw = {a["MODE"]: CLIM_PARAM[a["MODE"]][a["P"]]}
+        return self.cls()(cd, self.DELAY[a["MD"]], non_local=bool(a["NL"]), silence_level=3, **kw)
+
+    def mutate(self, obj, m, v):
+        if m == "set_max_delay":
+            obj.set_max_delay(self.DELAY[v])
+        else:
+            ClimateFamily.mutate(self, obj, m, v)
+
+
 class IsrnFamily:
     """Inter-system recurrence network: both setters rebuild the whole network."""
     name = "isrn"
@@ -578,7 +651,7 @@ class SurrogatesFamily:
         ]
 
 
-FAMILIES = {f.name: f for f in (CcnFamily(), EscnFamily(), TsonisFamily(), HilbertFamily(), IsrnFamily(), SurrogatesFamily(), NetworkFamily(), DirNetworkFamily(), InteractingFamily(), GeoNetworkFamily(),
+FAMILIES = {f.name: f for f in (SpearmanFamily(), PartialCorrFamily(), MutualInfoFamily(), HavlinFamily(), CcnFamily(), EscnFamily(), TsonisFamily(), HilbertFamily(), IsrnFamily(), SurrogatesFamily(), NetworkFamily(), DirNetworkFamily(), InteractingFamily(), GeoNetworkFamily(),
                                 ResNetworkFamily(), RpFamily(), RnFamily(), CrpFamily(), JrpFamily(),
                                 JrnFamily(), ClimateFamily(), ClimateDataFamily(), VisibilityFamily())}
 
@@ -618,6 +691,8 @@ def apply_abs(a, m, v):
         a["WO"] = v
     elif m == "set_directed":
         a["DIR"] = v
+    elif m == "set_max_delay":
+        a["MD"] = v
     return a
 
 
@@ -625,6 +700,10 @@ INIT = {
     "surrogates": {"EMB": 0, "NORM": 0},
     "tsonis": {"MODE": "threshold", "P": 1, "NL": 0, "WO": 0},
     "hilbert": {"MODE": "threshold", "P": 1, "NL": 0, "DIR": 1},
+    "spearman": {"MODE": "threshold", "P": 1, "NL": 0, "WO": 0},
+    "partialcorr": {"MODE": "threshold", "P": 1, "NL": 0, "WO": 0},
+    "mutualinfo": {"MODE": "threshold", "P": 1, "NL": 0, "WO": 0},
+    "havlin": {"MODE": "threshold", "P": 1, "NL": 0, "MD": 1},
     "isrn": {"MODE": "threshold", "P": 1},
     "ccn": {"MODE": "threshold", "P": 1, "NL": 0}, "escn": {"MODE": "threshold", "P": 1, "NL": 0},
     "network": {"A": 1, "W": 0, "LA": 0}, "dirnetwork": {"A": 1, "W": 0, "LA": 0},
